@@ -132,3 +132,43 @@ __CPROVER_loop_invariant(hash_n == hash_base ==> U.acc == seed_acc)
 __CPROVER_loop_invariant(hash_n > hash_base ==> U.acc == expect_next && !last_cand_passes)
 //@ end
 
+//@ function NaorPinkasEOTP__CheckGroup
+//@ contract
+__CPROVER_requires(__CPROVER_is_fresh(self, sizeof(*self)))
+__CPROVER_requires(WORD_OK(P) && WORD_OK(P - 1) && WORD_OK(MUL(Q, KDIV)))
+__CPROVER_assigns()
+/* C06: accepted exactly when sizes, p = qk+1, primality, gcd(q,k) = 1 hold and the generator(s) are (different)
+ * non-trivial elements of order q */
+__CPROVER_ensures(__CPROVER_return_value == (Q != 0 && BITS(P) >= self->F_size && BITS(Q) >= self->G_size && MUL(Q, KDIV) + 1 == P && ISPRIME(P) && ISPRIME(Q) && GCD(Q, KDIV) == 1 && POWM(G, Q, P) == 1 && 1 < G && G < P - 1))
+//@ end
+
+//@ function PedersenTrapdoorCommitmentScheme__CheckGroup
+//@ contract
+__CPROVER_requires(__CPROVER_is_fresh(self, sizeof(*self)))
+__CPROVER_requires(WORD_OK(P) && WORD_OK(MUL(Q, V(self->k))))
+__CPROVER_assigns()
+/* C06: accepted exactly when sizes, p = qk+1, primality, gcd(q,k) = 1 hold and the generator(s) are (different)
+ * non-trivial elements of order q */
+__CPROVER_ensures(__CPROVER_return_value == (BITS(P) >= self->F_size && BITS(Q) >= self->G_size && MUL(Q, V(self->k)) + 1 == P && ISPRIME(P) && ISPRIME(Q) && GCD(Q, V(self->k)) == 1 && POWM(G, Q, P) == 1 && POWM(H, Q, P) == 1 && 1 < G && G < P - 1 && 1 < H && H < P - 1 && G != H))
+//@ end
+
+//@ function JareckiLysyanskayaRVSS__CheckGroup
+//@ contract
+__CPROVER_requires(__CPROVER_is_fresh(self, sizeof(*self)))
+__CPROVER_requires(WORD_OK(P) && WORD_OK(P - 1) && WORD_OK(MUL(Q, KDIV)))
+__CPROVER_assigns()
+/* C06: accepted exactly when sizes, p = qk+1, primality, gcd(q,k) = 1 hold and the generator(s) are (different)
+ * non-trivial elements of order q */
+__CPROVER_ensures(__CPROVER_return_value == SCALAR_OK)
+//@ end
+
+//@ function HooghSchoenmakersSkoricVillegasVRHE__CheckGroup
+//@ contract
+__CPROVER_requires(__CPROVER_is_fresh(self, sizeof(*self)))
+__CPROVER_requires(WORD_OK(P) && WORD_OK(P - 1) && WORD_OK(MUL(Q, KDIV)))
+__CPROVER_assigns()
+/* C06: accepted exactly when sizes, p = qk+1, primality, gcd(q,k) = 1 hold and the generator(s) are (different)
+ * non-trivial elements of order q */
+__CPROVER_ensures(__CPROVER_return_value == SCALAR_OK)
+//@ end
+
